@@ -12,9 +12,9 @@ open Ec Ec.Gen.Coe
 
 /-- A segment response makes progress if, whenever the client accepts it, it carries at least one byte. -/
 def SegProgress (cfg : Cfg) (m : List Nat) : Prop :=
-  ∀ h, unpackSdoSegmented (image cfg.rmbx m) = .ok h →
-    ∀ c0, subU16 cfg.mode h.header.length SEGMENT_HEADER_LEN = .ok c0 →
-      1 ≤ (if c0 == SEGMENT_MIN_DATA then c0 - h.segDataSize else c0)
+  ∀ h, unpackSdoSegmented (image cfg.rmbx m) = .ok h → SEGMENT_HEADER_LEN ≤ h.header.length →
+    1 ≤ (if h.header.length - SEGMENT_HEADER_LEN == SEGMENT_MIN_DATA then
+          h.header.length - SEGMENT_HEADER_LEN - h.segDataSize else h.header.length - SEGMENT_HEADER_LEN)
 
 theorem mwr_reqs {σ ρ : Type} (w : World σ) (cfg : Cfg) (req : List Nat) (u : List Nat → Res ρ) (v : Nat → Nat → Bool)
     (s : St σ) : (mailboxWriteRead w cfg req u v s).2.reqs.length ≤ s.reqs.length + 1 := by
@@ -61,13 +61,12 @@ theorem segLoop_requests_bounded {σ : Type} (w : World σ) (cfg : Cfg) (P : Dev
       obtain ⟨h, data⟩ := hd
       obtain ⟨m, hm, hu, _, _⟩ := hok h data rfl
       dsimp only
-      cases hs16 : subU16 cfg.mode h.header.length SEGMENT_HEADER_LEN with
-      | panic why => show s'.reqs.length ≤ _; omega
-      | err e => show s'.reqs.length ≤ _; omega
-      | ok chunk0 =>
-        have hprog := hP m hm h hu chunk0 hs16
-        dsimp only
-        generalize (if chunk0 == SEGMENT_MIN_DATA then chunk0 - h.segDataSize else chunk0) = chunk at hprog ⊢
+      split
+      · show s'.reqs.length ≤ _; omega
+      · next hge =>
+        have hprog := hP m hm h hu (by omega)
+        generalize (if h.header.length - SEGMENT_HEADER_LEN == SEGMENT_MIN_DATA then
+          h.header.length - SEGMENT_HEADER_LEN - h.segDataSize else h.header.length - SEGMENT_HEADER_LEN) = chunk at hprog ⊢
         split
         · show s'.reqs.length ≤ _; omega
         · split
@@ -136,8 +135,9 @@ theorem segLoop_zeroSegs : ∀ (n fuel : Nat) (toggle : Bool) (buf : List Nat) (
             reqs := reqs ++ [image 32 (segmentRequest ctr toggle)], reads := reads + 1 } := by
       rw [segLoop]
       simp only [mailboxCounter, List.replicate_succ, mwr_zeroSeg]
-      have h3 : subU16 cfg32.mode zeroSegHdr.header.length SEGMENT_HEADER_LEN = .ok 0 := by decide
-      simp only [h3]
+      have h3 : ¬ zeroSegHdr.header.length < SEGMENT_HEADER_LEN := by decide
+      have h0 : zeroSegHdr.header.length - SEGMENT_HEADER_LEN = 0 := by decide
+      simp only [if_neg h3, h0]
       have hd : ((0 : Nat) == SEGMENT_MIN_DATA) = false := by decide
       simp only [hd, Bool.false_eq_true, if_false, List.take_zero, setRange_nil, Nat.add_zero, Nat.not_lt_zero]
       rw [if_neg (by omega)]
